@@ -65,6 +65,9 @@ type served struct {
 	HasDeclared bool
 	// CloseErr: the body reads completely, then Close fails (a connection torn down after the last byte)
 	CloseErr bool
+	// LateEOF: every byte of the body arrives, the end of the stream only when the driver says so - possibly after the
+	// caller's context has ended (the transfer is complete, the connection lingers)
+	LateEOF bool
 	// Parsable (C13): a 200 whose body parses as JSON of the response structure but is not the plain correct answer
 	Parsable bool
 	Status   int
@@ -130,6 +133,7 @@ type bodyReader struct {
 	cut      bool
 	closed   bool
 	closeErr bool
+	lateEOF  func() // parks at the end of the data (once), until released or until the request's context ends
 }
 
 func (b *bodyReader) Read(p []byte) (int, error) {
@@ -139,6 +143,10 @@ func (b *bodyReader) Read(p []byte) (int, error) {
 	if b.pos >= len(b.data) {
 		if b.cut {
 			return 0, io.ErrUnexpectedEOF
+		}
+		if f := b.lateEOF; f != nil {
+			b.lateEOF = nil
+			f()
 		}
 		return 0, io.EOF
 	}
@@ -266,6 +274,10 @@ func (t *transport) RoundTrip(req *http.Request) (*http.Response, error) {
 		return nil, errInjectedNet
 	}
 	br := &bodyReader{data: o.Body, closeErr: o.CloseErr}
+	if o.LateEOF {
+		ctx := req.Context()
+		br.lateEOF = func() { _, _ = t.s.Seam(ctx, a.Party, "rt.eof", req.Method+" "+req.URL.Path, c) }
+	}
 	if o.CutAt >= 0 && o.CutAt <= len(o.Body) {
 		br.data = o.Body[:o.CutAt]
 		br.cut = true
